@@ -60,3 +60,53 @@ def run_oracles(text, oracles, tag=None, contracts=True):
             mon.note('oracle-error:' + traceback.format_exc(limit=-3).strip().replace('\n', ' | ')[-300:])
         out['mons'][name] = mon.dump()
     return out
+
+
+def extract(res):
+    """Small JSON-able summary of one run for the pair / chain properties (C11, C12, C18)."""
+    import numpy as np
+    out = {'ok': res.ok, 'exc_type': res.exc_type, 'exc_msg': (res.exc_msg or '')[:160]}
+    if not res.ok or res.snap is None:
+        return out
+    s = res.snap
+    ec, sp, wb, rs = s.economics, s.surfaceplant, s.wellbores, s.reserv
+
+    def f(p):
+        try:
+            return float(p.value)
+        except (TypeError, ValueError, AttributeError):
+            return None
+
+    def arr(p):
+        try:
+            return [float(x) for x in np.asarray(p.value, dtype=float).reshape(-1)]
+        except (TypeError, ValueError, AttributeError):
+            return None
+    from .oracles_econ import config
+    out['cfg'] = config(s)
+    for k in ('LCOE', 'LCOH', 'LCOC', 'CCap', 'Coam', 'ProjectNPV', 'ProjectIRR', 'cost_one_production_well',
+              'cost_one_injection_well', 'Cwell', 'Cstim', 'Cplant', 'Cgath', 'Cexpl'):
+        out[k] = f(getattr(ec, k)) if ec.has(k) else None
+    out['chp_ratio'] = f(ec.CAPEX_heat_electricity_plant_ratio) if ec.has('CAPEX_heat_electricity_plant_ratio') else None
+    out['Trock'] = f(rs.Trock) if rs.has('Trock') else None
+    out['Tres'] = arr(rs.Tresoutput) if rs.has('Tresoutput') else None
+    out['Tprod'] = arr(wb.ProducedTemperature) if wb.has('ProducedTemperature') else None
+    out['redrill'] = f(wb.redrill) if wb.has('redrill') else None
+    for k in ('NetkWhProduced', 'HeatkWhProduced', 'cooling_kWh_Produced', 'PumpingkWh'):
+        out[k] = arr(getattr(sp, k)) if sp.has(k) else None
+    if s.addeconomics is not None:
+        ae = s.addeconomics
+        out['addon'] = {k: f(getattr(ae, k)) for k in ('ProjectNPV', 'AdjustedProjectCAPEX', 'AdjustedProjectOPEX') if ae.has(k)}
+    return out
+
+
+def multi_run(texts, want_report=False, want_extract=True):
+    """Run several inputs in this worker; returns one summary per input."""
+    outs = []
+    for t in texts:
+        res = runner.run_text(t, want_snap=want_extract)
+        o = extract(res) if want_extract else {'ok': res.ok, 'exc_type': res.exc_type, 'exc_msg': (res.exc_msg or '')[:160]}
+        if want_report:
+            o['report'] = runner.norm_report(res.report) if res.report else None
+        outs.append(o)
+    return outs
